@@ -35,10 +35,9 @@ Tok(ql) == Lit(ql.tag, ql.text)
 Lits == {QLit("Str", b, q) : b \in StrBodies, q \in L!Quotes}
         \cup {QLit("Num", t, "") : t \in NumTexts}
         \cup {QLit("true", <<>>, ""), QLit("false", <<>>, ""), QLit("null", <<>>, "")}
-Partners == {QLit("Str", <<"a">>, "'"), QLit("Str", <<"1">>, "\""), QLit("Num", <<"1">>, ""),
-             QLit("Str", <<"\\", "t">>, "'")}
-            \cup (IF Big THEN {QLit("null", <<>>, ""), QLit("true", <<>>, ""), QLit("Str", <<"\\", "\\", "n">>, "\""),
-                               QLit("Num", <<"0">>, "")} ELSE {})
+Partners == {QLit("Str", <<"a">>, "'"), QLit("Num", <<"1">>, ""), QLit("Str", <<"\\", "t">>, "\"")}
+            \cup (IF Big THEN {QLit("Str", <<"1">>, "\""), QLit("null", <<>>, ""), QLit("true", <<>>, ""),
+                               QLit("Str", <<"\\", "\\", "n">>, "'"), QLit("Num", <<"0">>, "")} ELSE {})
 
 \* ---- subjects: descriptors [k, s, t, a] (s: bytes of a string, t: JSON spelling of a
 \* number or of true/false/null, a: elements)
